@@ -472,6 +472,49 @@ class Ctx:
                                    ["path reaching the sink without passing the guard:"] + path_locs(f, p), key_detail="bypass:" + what)
         return self.record(rid, "R2", key, d, "hold", locs)
 
+    def r2_edge(self, rid, fn, edges, sink, desc=None, start=None):
+        """Every path from entry (or `start` call) to `sink` takes one of the given condition edges.
+        edges: list of (regex over the rendered switch discriminant, arm) with arm in true|false|else|<value>."""
+        F = self.F
+        d = desc or "%s: %s only via %s" % (short(fn, 2), sink, edges)
+        key = self.getfn(fn)
+        if key is None:
+            return self.lost(rid, "R2", fn, d, "function not found: " + fn)
+        f = F.fns[key]
+        cuts = []
+        locs = []
+        for cond_rx, arm in edges:
+            nb = 0
+            for bi, e, arms, els in self.guards(key):
+                if re.search(cond_rx, render(e)):
+                    am = dict(arms)
+                    t = els if arm in ("true", "else") else am.get("0", els) if arm == "false" else am.get(str(arm), els)
+                    cuts.append((bi, t))
+                    locs.append("%s %s [%s]" % (loc(f["blocks"][bi]["term"]), render(e)[:100], arm))
+                    nb += 1
+            if nb == 0:
+                return self.lost(rid, "R2", key, d, "condition not found: %s" % cond_rx)
+        if sink in ("ok", "return"):
+            targets = return_blocks(f)
+            dead = error_exit_blocks(f) if sink == "ok" else set()
+        else:
+            srx = pat(sink)
+            targets = {bi for bi, t in F.calls(key) if call_matches(t, srx)} & live_blocks(f)
+            dead = set()
+            if not targets:
+                return self.lost(rid, "R2", key, d, "no sink call matching %s" % (sink,))
+        starts = [0]
+        if start is not None:
+            strx = pat(start)
+            starts = [f["blocks"][b]["term"]["t"] for b, t in F.calls(key) if call_matches(t, strx) and f["blocks"][b]["term"]["t"] >= 0]
+            if not starts:
+                return self.lost(rid, "R2", key, d, "no start call matching %s" % (start,))
+        self.stats["guards"] += len(cuts)
+        p = reach(f, starts, targets, set(cuts), dead)
+        if p is None:
+            return self.record(rid, "R2", key, d, "hold", locs)
+        return self.record(rid, "R2", key, d, "violation", locs, ["path reaching the sink without taking a required edge:"] + path_locs(f, p), key_detail="edge:" + str(sink))
+
     def r2_value(self, rid, fn, ops, lhs=(), rhs=(), desc=None):
         """The function's return value is itself the comparison (e.g. `has_more_work`)."""
         F = self.F
